@@ -254,8 +254,6 @@ Theorem bmatch_schc_packet_refines rules s : canon s -> Forall canon_rule rules 
 Proof.
   intros Hs Hr. unfold bmatch_schc_packet, match_schc_packet.
   destruct (bmatch_schc_loop_refines rules s Hs Hr) as (o & Eo & Ao & Io).
-  destruct rules as [|r0 rules0]; [reflexivity|]. set (rules := r0 :: rules0) in *.
-  change (map (abs_rule abs) rules) with (abs_rule abs r0 :: map (abs_rule abs) rules0) at 1. cbv iota.
   rewrite Eo. cbn [bind]. rewrite <- Ao.
   destruct o as [r|]; cbn [option_map same_outcome]; [split; [exact Io|reflexivity]|reflexivity].
 Qed.
@@ -451,13 +449,13 @@ Proof.
 Qed.
 
 (* no id leads the packet (C11 c11_none / C15 c15_noid) *)
-Theorem bytes_noid rules s d : rules <> [] -> Forall canon_rule rules -> canon s ->
+Theorem bytes_noid rules s d : Forall canon_rule rules -> canon s ->
   (forall r, In r rules -> is_prefix (abs (brule_id r)) (abs s) = false) ->
   bmatch_schc_packet rules s = Exc RuleIDMatchError /\ bcm_decompress rules s d = Exc RuleIDMatchError.
 Proof.
-  intros NE Hr Hs N.
+  intros Hr Hs N.
   assert (match_schc_packet (map (abs_rule abs) rules) (abs s) = Exc RuleIDMatchError) as D.
-  { apply match_schc_packet_none; [destruct rules; [contradiction|discriminate]|].
+  { apply match_schc_packet_none.
     intros r' I. apply in_map_iff in I as (r & <- & I). exact (N r I). }
   pose proof (same_outcome_exc _ _ _ _ (bmatch_schc_packet_refines rules s Hs Hr) D) as E.
   split; [exact E|]. unfold bcm_decompress. now rewrite E.
